@@ -212,6 +212,11 @@ def run(ctx):
         for (a, n) in [(8, 2), (2, 5), (3, 1), (hw, 3)] + ([(0, -1), (0, 0), (4, 0)] if True else []):
             pcases.append((a, n, 2000, 50))
             pcases.append((a, n, 300, -1))
+        # nested parallel_for (depth 2; dur = -2): the bound is on threads inside bodies at once, whatever the nesting
+        for n in [x for x in ns if x <= hw] + ([2] if b == "debug" else []):
+            pcases.append((0, n, n, -2))
+            pcases.append((0, n, 4 * n, -2))
+        pcases.append((8, 3, 6, -2))
         rc, pl, perr = run_batch(ctx, hx[b], "pf", ["%d %d %d %d" % c for c in pcases], b, timeout=ctx.pick(300, 900))
         if rc != 0 or len(pl) != len(pcases):
             ctx.violation("%s backend: the parallel_for harness died (rc=%d) after %d of %d cases" % (b, rc, len(pl), len(pcases)),
@@ -234,7 +239,8 @@ def run(ctx):
             else:
                 lim = hw
             pf_hist["dur=%d" % dur] = pf_hist.get("dur=%d" % dur, 0) + 1
-            ok = ("max_inside" in f and int(f["count"]) == size and int(f["max_inside"]) <= lim and int(f["ids"]) <= lim
+            want_count = size * 8 if dur == -2 else size
+            ok = ("max_inside" in f and int(f["count"]) == want_count and int(f["max_inside"]) <= lim and int(f["ids"]) <= lim
                   and int(f["report"]) == lim)
             if ok:
                 if int(f["max_inside"]) >= 2:
@@ -244,9 +250,11 @@ def run(ctx):
                 rep1 = True
                 ctx.violation("%s backend: after initTaskingSystem(%s%d) parallel_for(%d, body %s us): %s; required: every index once, "
                               "numTaskingThreads()==%d, at most %d threads inside the body at once / %d distinct threads"
-                              % (b, ("%d) then initTaskingSystem(" % a) if a else "", n, size, "uneven" if dur < 0 else dur, l, lim, lim, lim),
+                              % (b, ("%d) then initTaskingSystem(" % a) if a else "", n, size,
+                                 "NESTED: each runs parallel_for(8, body 200" if dur == -2 else ("uneven" if dur < 0 else dur), l, lim, lim, lim),
                               {"backend": b, "case": {"earlier_init": a, "init": n, "loop_size": size, "body_us": dur}, "observed": l,
-                               "required": {"count": size, "report": lim, "max_inside_at_most": lim, "distinct_threads_at_most": lim}})
+                               "nested_inner_loop": "parallel_for(8), body spins 200 us" if dur == -2 else None,
+                               "required": {"count": want_count, "report": lim, "max_inside_at_most": lim, "distinct_threads_at_most": lim}})
     ctx.cov.setdefault("transient_hangs", [])
     ctx.cov["hardware_default_per_backend"] = hws
     ctx.cov["init_value_histogram"] = hist_n
@@ -255,7 +263,7 @@ def run(ctx):
     ctx.cov["parallel_for_duration_histogram"] = pf_hist
     ctx.rule = ("per backend (TBB, OpenMP, Internal, Debug), each case in a fresh forked process: all initTaskingSystem histories over "
                 "{-1,0,1,2,3,hw,2hw} up to length %d%s diffed with the extracted model; parallel_for under limits {1,2,3,(4,)hw,2hw} x sizes "
-                "{n,10n,10^4} x body {0,50us,uneven} and after re-initialisation. non-trivial = a history with >= 2 inits of different n, "
+                "{n,10n,10^4} x body {0,50us,uneven}, NESTED parallel_for (depth 2, 200us inner bodies) and after re-initialisation. non-trivial = a history with >= 2 inits of different n, "
                 "or a loop in which >= 2 threads were observed inside the body at once"
                 % (ctx.pick(3, 4), "" if ctx.thorough() else " (+150 random of length 4)"))
     ctx.sample({"hardware_defaults": hws})
